@@ -8,7 +8,7 @@ PROPERTY = 'C07'
 LEVEL = 'exploration'
 SHARDS = {'quick': 4, 'thorough': 16}
 RULE = (
-    'Metamorphic: the same wall-clock record (G-series with steps 600/1200/1800/3600 s and increments exactly equal '
+    'Metamorphic: the same wall-clock record (G-series with steps from 1 s to 5 days (mostly 600-7200 s; also steps such as 3900 s whose length in hours does not truncate back to whole seconds) and increments exactly equal '
     'to threshold x step built around level 0 so that the tie survives rounding; G-planted for the master curves) is '
     'loaded 4 times: at a base origin, shifted by a whole number of steps (1 step ... decades: origins 1955-2037, also '
     'straddling epoch 0, i.e. '
@@ -75,7 +75,11 @@ def gen_tie_record(rng):
         if abs(out[-1]) > 40 * J:
             out[-1] = 0.0 if rng.random() < 0.5 else out[-1]
     case['z'] = [[t, v] for t, v in zip(secs, out)]
-    case['grid_step'] = rng.choice([0.5, 1.0, 0.3])
+    gs = rng.choice([0.5, 1.0, 0.3])
+    # keep the number of grid levels moderate: with steps of days the threshold product is metres
+    while (max(out) - min(out)) / gs > 2500:
+        gs *= 2.0
+    case['grid_step'] = gs
     return case
 
 
